@@ -26,7 +26,7 @@ class Config(object):
 
     def __init__(self, seed=0, origin=(0.0, 0.0, 0.0), dx0=(0.125, 0.25, 0.5),
                  payload="tame", trailing_blank=True, long_ratio=False,
-                 file_gaps=False, time=None):
+                 file_gaps=False, time=None, numfmt="repr"):
         self.seed = seed
         self.origin = tuple(origin)
         self.dx0 = tuple(dx0)
@@ -35,16 +35,31 @@ class Config(object):
         self.long_ratio = long_ratio
         self.file_gaps = file_gaps
         self.time = time
+        # text of the decimal numbers of the global header: "repr" = shortest round-trip text (17 significant digits at most);
+        # "g6" = six significant digits, as written by codes that do not raise the stream precision.  The geometry helpers
+        # below (level_dx, geo, box_bounds) return the values THE HEADER STATES, so oracles follow the text
+        self.numfmt = numfmt
+
+    def fmt(self, x):
+        return repr(float(x)) if self.numfmt == "repr" else "%.6g" % float(x)
+
+    def q(self, x):
+        return float(self.fmt(x))
 
     def as_dict(self):
         return dict(self.__dict__)
 
     @staticmethod
-    def draw(rng, ndims=3, payload="tame", dyadic=False):
+    def draw(rng, ndims=3, payload="tame", dyadic=False, numfmt="repr"):
         """Draw a configuration from a python `random.Random`."""
         if dyadic:
             cand_dx = [0.125, 0.25, 0.5, 1.0, 0.0625]
             cand_or = [0.0, 1.0, -2.0, 0.5, -0.75]
+        elif numfmt == "g6":
+            # cell sizes whose decimal expansion does not end: every level's text is a ROUNDED number, ratios between the
+            # stated cell sizes of two levels are not exactly powers of two and extent / cell size is not exactly the cell count
+            cand_dx = [1.0 / 48, 0.1 / 3, 1.0 / 7, 0.3 / 11, 2.0 / 9, 1.7 / 13]
+            cand_or = [0.0, 1.0 / 3, -1.1 / 7, 2.0, -0.05]
         else:
             cand_dx = [0.1, 0.125, 0.3, 0.07, 0.25, 1.7]
             cand_or = [0.0, 0.3, -1.1, 2.0, -0.05]
@@ -57,7 +72,7 @@ class Config(object):
         return Config(seed=rng.randrange(1 << 30), origin=origin, dx0=dx0, payload=payload,
                       trailing_blank=rng.random() < 0.7, long_ratio=rng.random() < 0.3,
                       file_gaps=rng.random() < 0.3,
-                      time=rng.choice([0.0, 1.3924182125972017e-08, -2.5, 1e+22, 0.1]))
+                      time=rng.choice([0.0, 1.3924182125972017e-08, -2.5, 1e+22, 0.1]), numfmt=numfmt)
 
 
 # ---------------------------------------------------------------- token payloads
@@ -155,20 +170,41 @@ def file_name(f, cfg):
 
 
 def level_dx(cfg, ndims, lv):
-    return [cfg.dx0[d] / (2 ** lv) for d in range(ndims)]
+    return [cfg.q(cfg.dx0[d] / (2 ** lv)) for d in range(ndims)]
 
 
 def geo(AP, cfg):
     nd = AP["ndims"]
-    lo = [cfg.origin[d] for d in range(nd)]
-    hi = [cfg.origin[d] + cfg.dx0[d] * AP["dom"][d] for d in range(nd)]
+    lo = [cfg.q(cfg.origin[d]) for d in range(nd)]
+    hi = [cfg.q(cfg.origin[d] + cfg.dx0[d] * AP["dom"][d]) for d in range(nd)]
     return lo, hi
+
+
+def ishift(AP, lv):
+    """Index of the first cell of the level-lv domain along each axis (0 unless shift_indices was applied)."""
+    return [s * 2 ** lv for s in AP.get("ishift", [0] * AP["ndims"])]
+
+
+def shift_indices(AP, shift):
+    """Move the index space: the level-0 domain starts at index shift[d] (level lv: shift[d] * 2**lv); every box follows.
+    Physical coordinates are unchanged."""
+    nd = AP["ndims"]
+    old = AP.get("ishift", [0] * nd)
+    for lv, L in enumerate(AP["levels"]):
+        for box in L["boxes"]:
+            for d in range(nd):
+                k = (shift[d] - old[d]) * 2 ** lv
+                box["lo"][d] += k
+                box["hi"][d] += k
+    AP["ishift"] = list(shift[:nd])
+    return AP
 
 
 def box_bounds(AP, cfg, lv, box):
     nd = AP["ndims"]
     dx = level_dx(cfg, nd, lv)
-    return [[cfg.origin[d] + dx[d] * box["lo"][d], cfg.origin[d] + dx[d] * (box["hi"][d] + 1)]
+    s = ishift(AP, lv)
+    return [[cfg.q(cfg.origin[d] + dx[d] * (box["lo"][d] - s[d])), cfg.q(cfg.origin[d] + dx[d] * (box["hi"][d] + 1 - s[d]))]
             for d in range(nd)]
 
 
@@ -217,7 +253,8 @@ def write_plotfile(path, AP, cfg, reg=None, values=None, mm_override=None):
         for f in AP["fields"]:
             h.write(f + "\n")
         h.write("%d\n" % nd)
-        h.write(fmt(time) + "\n")
+        fmt = cfg.fmt
+        h.write(repr(float(time)) + "\n")
         h.write("%d\n" % (nlev - 1))
         h.write(" ".join(fmt(v) for v in lo) + tb + "\n")
         h.write(" ".join(fmt(v) for v in hi) + tb + "\n")
@@ -225,9 +262,10 @@ def write_plotfile(path, AP, cfg, reg=None, values=None, mm_override=None):
         h.write(" ".join("2" for _ in range(nrat)) + tb + "\n")
         doms = []
         for lv in range(nlev):
-            sz = [AP["dom"][d] * 2 ** lv - 1 for d in range(nd)]
+            sh = ishift(AP, lv)
+            sz = [AP["dom"][d] * 2 ** lv - 1 + sh[d] for d in range(nd)]
             z = ",".join("0" for _ in range(nd))
-            doms.append("((%s) (%s) (%s))" % (z, ",".join(str(s) for s in sz), z))
+            doms.append("((%s) (%s) (%s))" % (",".join(str(s) for s in sh), ",".join(str(s) for s in sz), z))
         h.write(" ".join(doms) + tb + "\n")
         h.write(" ".join(str(20 + lv) for lv in range(nlev)) + tb + "\n")
         for lv in range(nlev):
@@ -236,7 +274,7 @@ def write_plotfile(path, AP, cfg, reg=None, values=None, mm_override=None):
         h.write("0\n")
         for lv in range(nlev):
             L = AP["levels"][lv]
-            h.write("%d %d %s\n" % (lv, len(L["boxes"]), fmt(time)))
+            h.write("%d %d %s\n" % (lv, len(L["boxes"]), repr(float(time))))
             h.write("%d\n" % (20 + lv))
             for box in L["boxes"]:
                 for d in range(nd):
